@@ -521,7 +521,7 @@ def plan(tier, seed):
     add('tm', [1, 2], ['_', False, {'names': ['epsilon']}], 2, 8 if q else 2)
     add('tm', [1, 3], ['□', False, {'gamma': ['a', '%', '□'], 'sigma': ['a'], 'names': ['stack_symbols']}], 4, 64 if q else 16, 4 if q else 1)
     # wave 5: keywords in another letter case (Final, Initial, ...), names with non-decimal digit characters, generated-looking names
-    for sch in ('K', 'u', 'g'):
+    for sch in ('K', 'u', 'g', 'n'):
         add('dfa', [2, 1], sch, 2, 2)
         add('dfa', [2, 2], sch, 8, 16 if q else 4)
         add('nfa', [2, 1, 2], ['_', sch], 4, 16 if q else 4)
